@@ -26,7 +26,7 @@ SPEC = {
     "thorough": {"shards": 16, "time_cap": 1500, "queries": 50000, "idents": 10000},
 }
 FEATS = dict(unqualified=0.75, stars="base-only", cte_cols=True, using=True, window=True, any_sub=False, star_dup_order=False,
-             setops_all=False, nulls_order=True, nested_with=True, deep_corr=0.3, natural_join=0.15)
+             setops_all=False, nulls_order=True, nested_with=True, deep_corr=0.3, natural_join=0.15, star_beside_using=0.5)
 QDIALECTS = ["", "duckdb", "postgres", "snowflake", "mysql", "bigquery", "tsql", "spark", "sqlite", "oracle", "clickhouse", "trino"]
 
 with open(os.path.join(VERIF_DIR, "vf", "spec", "normalization.json")) as _f:
@@ -212,6 +212,29 @@ def check_query(ctx, q, tables, d, depth, i=1, isolate=False):
         sig = f"qualify:{p[0]}" + (f":{dn}" if p[0].startswith("column-not-qualified") else "")
         ctx.violation(sig, {"sql": text, "dialect": dn, "depth": depth, "problem": p[1], "qualified": r1.sql(dialect=d)[:500]}, case)
         return
+    # a qualified star stands for the columns of that very source
+    from sqlglot import exp as _exp
+
+    if isinstance(r1, _exp.Select) and getattr(q, "projs", None) and not getattr(q, "setops", None):
+        pos, ok_layout = 0, True
+        by_alias = {s2.alias: s2 for s2 in getattr(q, "scope", [])}
+        for e, _a in q.projs:
+            if isinstance(e, tuple) and e[0] == "star":
+                if e[1] is None or e[1] not in by_alias:
+                    ok_layout = False
+                    break
+                want = model_normalize(e[1], False, dn)
+                for c in by_alias[e[1]].cols:
+                    sel = r1.selects[pos].unalias() if pos < len(r1.selects) else None
+                    ctx.count("qualified_star_columns_checked")
+                    if not (isinstance(sel, _exp.Column) and sel.table == want and sel.name == model_normalize(c[0], False, dn)):
+                        ctx.violation("qualify:qualified-star-expands-to-something-else",
+                                      {"sql": text, "dialect": dn, "star": e[1], "column": c[0], "got": sel.sql(dialect=d) if sel is not None else None,
+                                       "qualified": r1.sql(dialect=d)[:400]}, case)
+                        return
+                    pos += 1
+            else:
+                pos += 1
     sql1 = r1.sql(dialect=d)
     from ..oracle import canon
 
